@@ -34,6 +34,10 @@ class Callee:
 _LIFETIME = re.compile(r"'[a-z_][a-z0-9_]*\b(?!')(, | )?")
 
 
+import functools
+
+
+@functools.lru_cache(maxsize=None)
 def strip_lifetimes(s):
     s = re.sub(r"::<'[a-z_][a-z0-9_]*(, '[a-z_][a-z0-9_]*)*>", '', s)
     s = re.sub(r"<'[a-z_][a-z0-9_]*(, '[a-z_][a-z0-9_]*)*>", '', s)
@@ -113,7 +117,11 @@ def parse_callee(raw):
     c.trait = None
     c.traitgen = []
     c.pathgen = []
-    if s.startswith('<') and not s.startswith('<impl '):
+    qualified = False
+    if s.startswith('<'):
+        close0 = M.find_matching(s, 0)
+        qualified = not s.startswith('<impl ') or M._find_top(s[1:close0], ' as ') != -1
+    if qualified:
         close = M.find_matching(s, 0)
         inner = s[1:close]
         rest = s[close + 1:]
@@ -186,8 +194,11 @@ class Machine:
         self.inherent_alias = {}  # 'mod::Type::method' -> mir name
         self.trait_impls = {}     # (trait_last, self_last, method) -> [mir name]
         self.derived_impls = set()
+        self.crate_overrides = set()
         self._build_impl_index()
         self.enum_cache = {}
+        self.adt_cache = {}
+        self.discr_cache = {}
         self.global_cells = {}
 
     # -- impl index ------------------------------------------------------
@@ -259,6 +270,14 @@ class Machine:
     def discr_of(self, en):
         if en.disc is not None:
             return en.disc
+        hit = self.discr_cache.get((en.ty, en.var))
+        if hit is not None:
+            return hit
+        r = self._discr_of(en)
+        self.discr_cache[(en.ty, en.var)] = r
+        return r
+
+    def _discr_of(self, en):
         t = self.enum_table(rsrc._strip_generics(en.ty))
         if t is None:
             t = self.src.enum_variants(en.ty)
@@ -325,6 +344,8 @@ class Machine:
             for k in (cand, key, c.key):
                 if k in self.env:
                     return ('env', self.env[k], c)
+            if c.key in self.models and c.key in self.crate_overrides:
+                return ('model', self.models[c.key], c)
             # inherent alias names for env lookup
             for alias, nm in self.inherent_alias.items():
                 if nm == cand and alias in self.env:
@@ -398,6 +419,8 @@ class Path:
         self.max_steps = cfg.get('max_steps', 2_000_000)
         self.max_depth = cfg.get('max_depth', 60)
         self.state = {}         # scratch for environment models (fs etc.)
+        self.decided = {}       # ast id of a decided condition -> bool (valid for this path only)
+        self._keep = []
         from .models import util as _u
         _u.DOMAINS.clear()
         _u.RANGES.clear()
@@ -449,6 +472,24 @@ class Path:
             self.pc.append(c)
             self.solver.add(c)
 
+    def _learn(self, cond, value):
+        """remember a decided condition for this path; narrow byte domains on x == const"""
+        self.decided[cond.get_id()] = value
+        self._keep.append(cond)
+        try:
+            if z3.is_eq(cond) and cond.num_args() == 2:
+                a, b = cond.arg(0), cond.arg(1)
+                if z3.is_bv_value(a):
+                    a, b = b, a
+                if z3.is_bv_value(b) and z3.is_const(a) and a.size() == 8:
+                    from .models import util as _u
+                    d = _u.DOMAINS.get(a.get_id())
+                    if d is not None:
+                        v = b.as_long()
+                        _u.DOMAINS[a.get_id()] = frozenset([v]) if value else (d - {v})
+        except z3.Z3Exception:
+            pass
+
     def branch(self, cond):
         """cond: Sc bool | python bool | z3 Bool.  Returns python bool, forking as needed."""
         if isinstance(cond, Sc):
@@ -460,25 +501,39 @@ class Path:
             return True
         if z3.is_false(cond):
             return False
+        known = self.decided.get(cond.get_id())
+        if known is not None:
+            return known
+        neg_form = None
+        if z3.is_not(cond):
+            inner = cond.arg(0)
+            k2 = self.decided.get(inner.get_id())
+            if k2 is not None:
+                return not k2
+            neg_form = inner
         k = len(self.decisions)
         if k < len(self.prefix):
             d = self.prefix[k]
             self.decisions.append(d)
             self._add(cond if d == 1 else z3.Not(cond))
+            self._learn(cond if neg_form is None else neg_form, (d == 1) if neg_form is None else (d != 1))
             return d == 1
         ncond = z3.Not(cond)
         if not self._check(cond):
             self.decisions.append(0)
             self._add(ncond)
-            return False
-        if not self._check(ncond):
+            res = False
+        elif not self._check(ncond):
             self.decisions.append(1)
             self._add(cond)
-            return True
-        self.alts.append(self.decisions + [0])
-        self.decisions.append(1)
-        self._add(cond)
-        return True
+            res = True
+        else:
+            self.alts.append(self.decisions + [0])
+            self.decisions.append(1)
+            self._add(cond)
+            res = True
+        self._learn(cond if neg_form is None else neg_form, res if neg_form is None else (not res))
+        return res
 
     def choose(self, conds):
         """conds: list of z3 Bool / python bool, intended mutually exclusive.
@@ -774,10 +829,16 @@ class Path:
                 cand = r[1] + '::' + m.group(2)
                 if Mx.mir.has(cand):
                     return self.run_fn(Mx.mir.get(cand), [])
-        if p in ('std::u32::MAX', 'u32::MAX', 'core::u32::MAX'):
-            return Sc(0xffffffff, 32)
-        if p in ('usize::MAX', 'std::usize::MAX'):
-            return Sc((1 << 64) - 1, 64)
+        m = re.fullmatch(r'(?:core|std)::num::<impl ([iu](?:8|16|32|64|128|size))>::(MAX|MIN|BITS)', path)
+        if not m:
+            m = re.fullmatch(r'(?:std::|core::)?([iu](?:8|16|32|64|128|size))::(MAX|MIN|BITS)', p)
+        if m:
+            w, sg = M.INT_TYPES[m.group(1)]
+            if m.group(2) == 'BITS':
+                return Sc(w, 32)
+            if m.group(2) == 'MAX':
+                return Sc(((1 << (w - 1)) - 1) if sg else ((1 << w) - 1), w, sg)
+            return Sc(-(1 << (w - 1)) if sg else 0, w, sg)
         raise Unsupported('named const %s' % path)
 
     def static_ref(self, alloc, ty):
@@ -858,15 +919,21 @@ class Path:
         raise Unsupported('rvalue %r' % (k,))
 
     def adt(self, path, ops):
-        p = rsrc._strip_generics(strip_lifetimes(path))
-        if '::' in p:
-            ety, var = p.rsplit('::', 1)
-            tab = self.M.enum_table(ety)
-            if tab is not None:
-                for v, d in tab:
-                    if v == var:
-                        return En(ety, var, ops)
-        return Agg(p, ops)
+        info = self.M.adt_cache.get(path)
+        if info is None:
+            p = rsrc._strip_generics(strip_lifetimes(path))
+            info = (None, p)
+            if '::' in p:
+                ety, var = p.rsplit('::', 1)
+                tab = self.M.enum_table(ety)
+                if tab is not None:
+                    for v, d in tab:
+                        if v == var:
+                            info = (ety, var)
+            self.M.adt_cache[path] = info
+        if info[0] is not None:
+            return En(info[0], info[1], ops)
+        return Agg(info[1], ops)
 
     def cast(self, kind, v, ty):
         if kind == 'IntToInt':
@@ -976,6 +1043,21 @@ class Path:
         if kind == 'env':
             self.M.stubs_used.add(r[2].key)
             return r[1](self, r[2], args, dest_ty)
+        # calls through a generic parameter (<T as Trait>::method) inside an un-monomorphised body:
+        # dispatch on the runtime type of the receiver
+        c = r[2]
+        if c.trait is not None and c.method == 'into' and c.trait.endswith('::Into') and (c.selfty or '').startswith('impl '):
+            from .models.core import convert_from
+            return convert_from(self, args[0], '<impl>', c.traitgen[0] if c.traitgen else dest_ty)
+        if c.trait is not None and args and re.fullmatch(r'[A-Z][A-Za-z0-9]*', c.selfty or ''):
+            from .models.util import tgt
+            recv = tgt(args[0])
+            ty = getattr(recv, 'ty', None)
+            if ty:
+                lst = self.M.trait_impls.get((c.trait.rsplit('::', 1)[-1], ty.rsplit('::', 1)[-1], c.method))
+                if lst and len(lst) == 1:
+                    fn = self.M.mir.get(lst[0])
+                    return self.run_fn(fn, args)
         raise Unsupported('no model for callee: %s   [key %s]' % (t.a, r[2].key))
 
     def _untuple(self, fn, args, c):
